@@ -16,5 +16,11 @@ if ! diff -q <(git diff -- src include) SEED/patch.diff >/dev/null 2>&1; then ec
 git apply -R /tmp/seed_eval.$$.diff && { cmake --build _build -j6 >/dev/null 2>&1 || echo "BUILD FAILED"; timeout 600 sh SEED/build_and_run.sh "$W" >/tmp/seed_eval.without 2>&1; echo "exit=$?"; tail -2 /tmp/seed_eval.without | cut -c1-200; git apply /tmp/seed_eval.$$.diff; cmake --build _build -j6 >/dev/null 2>&1; }
 rm -f /tmp/seed_eval.$$.diff
 git status --short | head -4
-echo "### my check: REPO=$W ./check $ID $TIER"
-cd /verif && REPO="$W" timeout 2400 ./check "$ID" "$TIER" 2>&1 | grep -vE '^ *#[0-9]' | grep -E "VIOLATION|signature:|$ID $TIER:|KNOWN-FINDING|NOTE" | cut -c1-400 | head -10
+# 5. my check runs on a FRESH worktree of the current /repo head with only the candidate's patch applied
+#    (the candidate's own worktree may predate later repairs in /repo)
+W2=/tmp/seedchk-$ID-$$
+git -C /repo worktree add -q --detach "$W2" HEAD || exit 2
+if ! git -C "$W2" apply "$W/SEED/patch.diff"; then echo "### PATCH DOES NOT APPLY TO THE CURRENT HEAD"; git -C /repo worktree remove --force "$W2"; exit 3; fi
+echo "### my check: REPO=<fresh worktree at $(git -C /repo log --format=%h -1) + patch> ./check $ID $TIER"
+cd /verif && REPO="$W2" timeout 2400 ./check "$ID" "$TIER" 2>&1 | grep -vE '^ *#[0-9]' | grep -E "VIOLATION|signature:|$ID $TIER:|KNOWN-FINDING|NOTE" | cut -c1-400 | head -10
+git -C /repo worktree remove --force "$W2"; git -C /repo worktree prune
